@@ -68,7 +68,14 @@ impl World {
         }
         let validators: Vec<String> = (0..setup.validators.min(2)).map(|i| format!("valoper{}", i)).collect();
         let (vals, unbonding_time) = (validators.clone(), setup.unbonding_time);
-        let app: TApp = BasicAppBuilder::<XMsg, XQuery>::new_custom().with_api(MockApi::default().with_prefix(prefix)).with_custom(XModule).build(|router, api, storage| {
+        struct PoolGen(u64);
+        impl cw_multi_test::AddressGenerator for PoolGen {
+            fn contract_address(&self, api: &dyn cosmwasm_std::Api, _storage: &mut dyn cosmwasm_std::Storage, _code_id: u64, instance_id: u64) -> cw_multi_test::error::AnyResult<Addr> {
+                Ok(api.addr_humanize(&crate::util::classic_canonical(1, instance_id % self.0))?)
+            }
+        }
+        let keeper = if setup.addr_pool > 0 { WasmKeeper::<XMsg, XQuery>::new().with_address_generator(PoolGen(setup.addr_pool as u64)) } else { WasmKeeper::<XMsg, XQuery>::new() };
+        let app: TApp = BasicAppBuilder::<XMsg, XQuery>::new_custom().with_api(MockApi::default().with_prefix(prefix)).with_wasm(keeper).with_custom(XModule).build(|router, api, storage| {
             for (a, c) in inits {
                 router.bank.init_balance(storage, &a, c).unwrap();
             }
@@ -82,7 +89,7 @@ impl World {
         });
         let b = app.block_info();
         st.block = (b.height, b.time.nanos(), b.chain_id);
-        let mut w = World { prefix, app, fx: Fixed { codes: BTreeMap::new(), users, fresh, nowhere, validators, unbonding_time: setup.unbonding_time }, st, ever: BTreeMap::new(), next_tag: 0 };
+        let mut w = World { prefix, app, fx: Fixed { codes: BTreeMap::new(), users, fresh, nowhere, validators, unbonding_time: setup.unbonding_time, addr_pool: setup.addr_pool }, st, ever: BTreeMap::new(), next_tag: 0 };
         for c in &setup.codes {
             let _ = w.store(c);
         }
@@ -952,7 +959,7 @@ fn c13_grid() -> Vec<History> {
         Migrate,
     }
     let mut out = vec![];
-    let setup = Setup { balances: vec![[100, 100, 100]; N_USERS], codes: vec![CodeSpec { family: Family::Puppet, how: StoreHow::Plain, own_checksum: None }, CodeSpec { family: Family::WrappedFull, how: StoreHow::Plain, own_checksum: None }], validators: 0, unbonding_time: 60 };
+    let setup = Setup { balances: vec![[100, 100, 100]; N_USERS], codes: vec![CodeSpec { family: Family::Puppet, how: StoreHow::Plain, own_checksum: None }, CodeSpec { family: Family::WrappedFull, how: StoreHow::Plain, own_checksum: None }], validators: 0, unbonding_time: 60, addr_pool: 0 };
     let init = |code: u8, admin: Option<ARef>| Tx { kind: TxKind::Exec { sender: ARef::User(0), msg: Msg::Inst { code: KRef(code), node: 0, funds: vec![], label: "c".into(), admin, salt: None }, via: Via::Execute }, nodes: vec![Node { writes: vec![Write::Set(crate::util::Hx(b"init".to_vec()), crate::util::Hx(vec![1]))], ..Default::default() }], qnodes: vec![] };
     let strings: Vec<(Pos, String)> = KEYS.iter().flat_map(|k| [(Pos::AttrKey, k.to_string()), (Pos::EventAttrKey, k.to_string())]).chain(TYPES.iter().map(|t| (Pos::EventType, t.to_string()))).collect();
     for (pos, s) in &strings {
